@@ -329,6 +329,27 @@ func (s *Sym) MakeFn(name string, args ...*RF) *RF {
 				}
 			}
 		}
+		// a length is a non-negative integer: 0 < len(x) is len(x) != 0,
+		// len(x) <= 0 is len(x) == 0, 0 <= len(x) holds and len(x) < 0 does not
+		if len(args) == 2 && (name == "cmp<" || name == "cmp<=") {
+			isLen := func(r *RF) bool {
+				at := r.SingleAtom()
+				return at != nil && at.Name == "len" && len(at.Args) == 1 && r.Equal(s.atomRF(at.ID))
+			}
+			isZero := func(r *RF) bool { c, ok := r.IsConst(); return ok && c.Sign() == 0 }
+			switch {
+			case isZero(args[0]) && isLen(args[1]):
+				if name == "cmp<" {
+					return s.MakeFn("cmp!=", args[0], args[1])
+				}
+				return s.True()
+			case isLen(args[0]) && isZero(args[1]):
+				if name == "cmp<=" {
+					return s.MakeFn("cmp==", args[1], args[0])
+				}
+				return s.False()
+			}
+		}
 		// a comparison whose two sides differ by a constant is decided (reals, A4)
 		if len(args) == 2 {
 			if c, ok := args[0].Sub(args[1]).IsConst(); ok {
